@@ -264,6 +264,38 @@ static std::string raceShutdown(int trials, int submitters, std::size_t mn, std:
          " started_after_return=" + std::to_string(ranLater) + " left_queued=" + std::to_string(leftQueued);
 }
 
+// a running pool with a queue that never fills refuses nothing: tryEnqueue / enqueue are only allowed to refuse for a
+// full queue, a drain or a shutdown - not because the pool's mutex happens to be busy
+static std::string neverRefuse(int submitters, int tasks)
+{
+  std::atomic<long> refused{0}, ran{0}, accepted{0};
+  {
+    ThreadPool pool(2, 4, std::chrono::seconds(30), 1u << 22);
+    std::atomic<bool> monitoring{true};
+    std::thread monitor([&] { while (monitoring.load()) { (void)pool.getPendingTaskCount(); (void)pool.getTotalThreadCount(); } });
+    std::vector<std::thread> th;
+    for (int s = 0; s < submitters; ++s)
+      th.emplace_back([&, s]
+      {
+        for (int i = 0; i < tasks; ++i)
+        {
+          bool ok;
+          if ((i + s) % 4 == 0)
+          {
+            try { pool.enqueue([&] { ran++; }); ok = true; }
+            catch (const std::exception &) { ok = false; }
+          }
+          else ok = pool.tryEnqueue([&] { ran++; });
+          if (ok) accepted++; else refused++;
+        }
+      });
+    for (auto &t : th) t.join();
+    monitoring = false;
+    monitor.join();
+  }
+  return "N refused=" + std::to_string(refused.load()) + " lost=" + std::to_string(accepted.load() - ran.load());
+}
+
 static std::string overshoot()
 {
   std::mutex m;
@@ -310,6 +342,7 @@ int main(int argc, char **argv)
       if (p[0] == "S") r = scenario(p[1], split(p[2], ';'));
       else if (p[0] == "X") r = stress(std::stoi(p[1]), std::stoi(p[2]), std::stoul(p[3]), std::stoul(p[4]), std::stoul(p[5]));
       else if (p[0] == "O") r = overshoot();
+      else if (p[0] == "N") r = neverRefuse(std::stoi(p[1]), std::stoi(p[2]));
       else if (p[0] == "Z") r = raceShutdown(std::stoi(p[1]), std::stoi(p[2]), std::stoul(p[3]), std::stoul(p[4]), p[5]);
       else if (p[0] == "Y") r = destroyWithBacklog(std::stoi(p[1]), std::stoul(p[2]));
       else r = "BADCASE";
